@@ -6,7 +6,7 @@ sources and flags is unchanged.
 
 usage: build.py <config> [<config> ...]     prints the directory of each build
 """
-import hashlib, os, re, subprocess, sys, shutil, fcntl, time
+import glob, hashlib, os, re, subprocess, sys, shutil, fcntl, time
 from concurrent.futures import ThreadPoolExecutor
 
 REPO = os.environ.get("VERIF_REPO", "/repo")
@@ -106,7 +106,7 @@ def build(config):
         elif config == "fuzz":
             pass  # fuzz targets are linked by fuzz/build_fuzz.py against libbee2.a
         else:
-            xs = [os.path.join(VERIF, "x", f) for f in ("b2x.c", "shim.c")]
+            xs = [os.path.join(VERIF, "x", "b2x.c")] + sorted(glob.glob(os.path.join(VERIF, "x", "shim*.c")))
             if "X_WRAP_ALLOC" in xextra:
                 xs.append(os.path.join(VERIF, "x", "wrap_alloc.c"))
             run("%s -w %s %s %s %s -o %s/b2x -Wl,--whole-archive %s -Wl,--no-whole-archive -rdynamic %s -ldl -lpthread" %
